@@ -42,6 +42,8 @@ fn main() {
         "names" => names(),
         "grow" => grow(),
         "pertype" => pertype(),
+        "syncfail" => syncfail(),
+        "syncfail-child" => syncfail_child(&args[2], args[3].parse().unwrap()),
         "stats" => stats(),
         _ => { eprintln!("unknown scenario"); 2 }
     };
@@ -375,6 +377,37 @@ fn sigmut() -> i32 {
         }
         std::fs::write(&p, &orig).unwrap();
     }
+    // the type signature written into each of the three files is the documented one of the key type; a value (or key, or table) file
+    // taken from a map of another key type is refused
+    {
+        let d3 = tmpdir("sigdoc");
+        {
+            let db = abyssiniandb::open_file(&d3).unwrap();
+            let mut a = db.db_map_string_with_params("s", params.clone()).unwrap(); a.put_string("k", "v").unwrap();
+            let mut b = db.db_map_bytes_with_params("b", params.clone()).unwrap(); b.put(&b"k"[..], b"v").unwrap();
+            let mut c = db.db_map_i64_with_params("i", params.clone()).unwrap(); c.put(&5i64, b"v").unwrap();
+            let mut d = db.db_map_u64_with_params("u", params.clone()).unwrap(); d.put(&5u64, b"v").unwrap();
+            let mut e = db.db_map_vu64_with_params("v", params.clone()).unwrap(); e.put(&5u64, b"v").unwrap();
+        }
+        for (nm, sig) in [("s", &b"string\0\0"[..]), ("b", &b"bytes\0\0\0"[..]), ("i", &b"i64_le\0\0"[..]), ("u", &b"u64_le\0\0"[..]), ("v", &b"u64_le\0\0"[..])] {
+            for ext in ["key", "val", "htx"] {
+                let f = std::fs::read(d3.join(format!("{nm}.{ext}"))).unwrap();
+                if &f[8..16] != sig { bad.push(format!("{nm}.{ext}: type signature {:?}, documented {:?}", String::from_utf8_lossy(&f[8..16]), String::from_utf8_lossy(sig))); }
+            }
+        }
+        for ext in ["key", "val", "htx"] {
+            let orig = std::fs::read(d3.join(format!("s.{ext}"))).unwrap();
+            std::fs::copy(d3.join(format!("b.{ext}")), d3.join(format!("s.{ext}"))).unwrap();
+            let r = std::panic::catch_unwind(std::panic::AssertUnwindSafe(|| {
+                let db = abyssiniandb::open_file(&d3)?;
+                let mut m = db.db_map_string_with_params("s", params.clone())?;
+                m.get("k")
+            }));
+            if matches!(r, Ok(Ok(_))) { bad.push(format!("string map opened with the .{ext} file of a bytes map")); }
+            std::fs::write(d3.join(format!("s.{ext}")), &orig).unwrap();
+        }
+        let _ = std::fs::remove_dir_all(&d3);
+    }
     // every ordered pair of key types except the recorded finding K2 (u64 / vu64)
     for (i, j) in [(0, 1), (0, 2), (0, 3), (1, 0), (1, 2), (2, 0), (2, 1), (2, 3), (3, 0), (3, 2), (4, 0), (4, 1), (4, 2), (0, 4), (1, 4), (2, 4), (1, 3), (3, 1)] {
         let d2 = tmpdir("sigpair");
@@ -422,6 +455,26 @@ fn reopen() -> i32 {
             if round > 0 { let k = format!("key-{}-{}", round - 1, 3); m.delete(&k).unwrap(); model.remove(&k); }
         }
       }
+        // within one session: the same name requested again with OTHER parameters is the same map (parameters of an existing map are ignored)
+        let _ = std::fs::remove_dir_all(&dir);
+        {
+            let p1 = FileDbParams { buckets_size: HashBucketsParam::BucketsSize(8), ..Default::default() };
+            let p2 = FileDbParams { buckets_size: HashBucketsParam::BucketsSize(256), key_buf_size: FileBufSizeParam::Size(512 * 1024), ..Default::default() };
+            let db = abyssiniandb::open_file(&dir).unwrap();
+            macro_rules! again { ($f:ident, $name:expr, $k1:expr, $k2:expr) => {{
+                let mut a = db.$f($name, p1.clone()).unwrap();
+                a.put($k1, b"first").unwrap();
+                let mut b = db.$f($name, p2.clone()).unwrap();
+                if b.get($k1).unwrap() != Some(b"first".to_vec()) { return Err(format!("map {}: a handle requested again with other parameters does not see the first handle's put", $name)); }
+                b.put($k2, b"second").unwrap();
+                if a.get($k2).unwrap() != Some(b"second".to_vec()) || a.len().unwrap() != 2 || b.len().unwrap() != 2 { return Err(format!("map {}: the two handles of one name diverge", $name)); }
+            }}; }
+            again!(db_map_string_with_params, "rs", "k1", "k2");
+            again!(db_map_bytes_with_params, "rb", &b"k1"[..], &b"k2"[..]);
+            again!(db_map_i64_with_params, "ri", &1i64, &-2i64);
+            again!(db_map_u64_with_params, "ru", &1u64, &2u64);
+            again!(db_map_vu64_with_params, "rv", &1u64, &2u64);
+        }
         Ok(())
     }));
     let _ = std::fs::remove_dir_all(&dir);
@@ -435,13 +488,15 @@ fn readonly() -> i32 {
         for n in [8u64, 16, 64, 128, 1024] {
             let _ = std::fs::remove_dir_all(&dir);
             let params = FileDbParams { buckets_size: HashBucketsParam::BucketsSize(n), ..Default::default() };
-            for fill in [0usize, 1, 5, 40] {
+            for (fill, del) in [(0usize, 0usize), (1, 0), (1, 1), (5, 0), (5, 1), (5, 2), (5, 3), (40, 1), (40, 2), (40, 3)] {
                 let _ = std::fs::remove_dir_all(&dir);
                 {
                     let db = abyssiniandb::open_file(&dir).unwrap();
                     let mut m = db.db_map_string_with_params("m", params.clone()).unwrap();
                     for i in 0..fill { m.put(&format!("k{i}"), &vec![i as u8; 3 + i * 11]).unwrap(); }
-                    if fill > 2 { m.delete("k1").unwrap(); }
+                    // free slots in the middle (del 1), at the very end of both files (del 2: the last entry inserted), everywhere (del 3)
+                    match del { 1 => { if fill > 2 { m.delete("k1").unwrap(); } else { m.delete("k0").unwrap(); } } 2 => { m.delete(&format!("k{}", fill - 1)).unwrap(); }
+                                3 => { for i in 0..fill { m.delete(&format!("k{i}")).unwrap(); } } _ => {} }
                 }
                 let snap = |d: &std::path::Path| -> Vec<Vec<u8>> { ["key", "val", "htx"].iter().map(|e| std::fs::read(d.join(format!("m.{e}"))).unwrap()).collect() };
                 let before = snap(&dir);
@@ -458,7 +513,7 @@ fn readonly() -> i32 {
                     let _ = m.key_length_stats().unwrap(); let _ = m.value_length_stats().unwrap();
                     m.read_fill_buffer().unwrap(); m.flush().unwrap(); m.sync_data().unwrap(); m.sync_all().unwrap();
                 }
-                if snap(&dir) != before { return Err(format!("table of {n} buckets, {fill} entries: files differ after a read-only session")); }
+                if snap(&dir) != before { return Err(format!("table of {n} buckets, {fill} entries, delete pattern {del}: files differ after a read-only session")); }
             }
         }
         Ok(())
@@ -921,4 +976,98 @@ fn pertype() -> i32 {
     match res { Ok(Ok(())) => { println!("OK"); 0 } Ok(Err(e)) => { println!("MISMATCH: {e}"); 1 }
         Err(e) => { let msg = e.downcast_ref::<String>().cloned().unwrap_or_default();
             if msg.contains("key_offset != new_key_offset") || msg.contains("_prev_key_offset != new_prev_key_offset") { println!("OK (stopped at recorded finding K1)"); 0 } else { println!("MISMATCH: panicked: {msg}"); 1 } } }
+}
+
+/// C16 with a real OS refusal: the scenario re-executes itself under `ulimit -S -f 128` (SIGXFSZ ignored, so write(2) beyond 64 KiB fails
+/// with EFBIG). For every key type: updates to a map whose table file is larger than the limit; every flush / sync — on the map, on a
+/// second handle, on the whole database — must report the error, the in-memory view stays correct, and after the limit is lifted
+/// (prlimit, if available) a flush succeeds and a copy of the directory opens to the full contents.
+fn syncfail() -> i32 {
+    let dir = tmpdir("syncfail");
+    let big = FileDbParams { buckets_size: HashBucketsParam::BucketsSize(65536), ..Default::default() };
+    let small = FileDbParams { buckets_size: HashBucketsParam::BucketsSize(64), ..Default::default() };
+    {
+        let db = abyssiniandb::open_file(&dir).unwrap();
+        macro_rules! mk { ($f:ident, $a:expr, $z:expr, $k:expr) => {{ let mut a = db.$f($a, big.clone()).unwrap(); a.put($k, b"x").unwrap(); let mut z = db.$f($z, small.clone()).unwrap(); z.put($k, b"x").unwrap(); }}; }
+        mk!(db_map_string_with_params, "s_a", "s_z", "seed"); mk!(db_map_bytes_with_params, "b_a", "b_z", &b"seed"[..]);
+        mk!(db_map_i64_with_params, "i_a", "i_z", &0i64); mk!(db_map_u64_with_params, "u_a", "u_z", &0u64); mk!(db_map_vu64_with_params, "v_a", "v_z", &0u64);
+    }
+    let exe = std::env::current_exe().unwrap();
+    let mut bad: Vec<String> = Vec::new();
+    for t in 0..5 {
+        let out = std::process::Command::new("sh").arg("-c").arg("trap '' XFSZ; ulimit -S -f 128 || exit 97; exec \"$0\" syncfail-child \"$1\" \"$2\"")
+            .arg(&exe).arg(&dir).arg(t.to_string()).env("RUST_BACKTRACE", "0").output();
+        match out {
+            Err(e) => { println!("OK (skipped: cannot run sh: {e})"); let _ = std::fs::remove_dir_all(&dir); return 0; }
+            Ok(o) => {
+                let txt = String::from_utf8_lossy(&o.stdout).to_string();
+                if o.status.code() == Some(97) { println!("OK (skipped: ulimit -f not available)"); let _ = std::fs::remove_dir_all(&dir); return 0; }
+                if o.status.code() != Some(0) { bad.push(format!("key type #{t}: {}", txt.lines().filter(|l| l.starts_with("MISMATCH") || l.contains("panicked")).collect::<Vec<_>>().join(" | "))); }
+            }
+        }
+    }
+    let _ = std::fs::remove_dir_all(&dir);
+    let _ = std::fs::remove_dir_all(tmpdir("syncfailsnap"));
+    if bad.is_empty() { println!("OK"); 0 } else { println!("MISMATCH: {}", bad.join("; ")); 1 }
+}
+
+fn syncfail_child(dir: &str, t: usize) -> i32 {
+    let dir = std::path::PathBuf::from(dir);
+    let big = FileDbParams { buckets_size: HashBucketsParam::BucketsSize(65536), ..Default::default() };
+    let small = FileDbParams { buckets_size: HashBucketsParam::BucketsSize(64), ..Default::default() };
+    let res = std::panic::catch_unwind(std::panic::AssertUnwindSafe(|| -> Result<(), String> {
+        let db = abyssiniandb::open_file(&dir).unwrap();
+        // all ten maps are open (registered) in this session
+        let mut sa = db.db_map_string_with_params("s_a", big.clone()).unwrap(); let _sz = db.db_map_string_with_params("s_z", small.clone()).unwrap();
+        let mut ba = db.db_map_bytes_with_params("b_a", big.clone()).unwrap(); let _bz = db.db_map_bytes_with_params("b_z", small.clone()).unwrap();
+        let mut ia = db.db_map_i64_with_params("i_a", big.clone()).unwrap(); let _iz = db.db_map_i64_with_params("i_z", small.clone()).unwrap();
+        let mut ua = db.db_map_u64_with_params("u_a", big.clone()).unwrap(); let _uz = db.db_map_u64_with_params("u_z", small.clone()).unwrap();
+        let mut va = db.db_map_vu64_with_params("v_a", big.clone()).unwrap(); let _vz = db.db_map_vu64_with_params("v_z", small.clone()).unwrap();
+        macro_rules! run { ($m:expr, $again:expr, $key:expr, $tag:expr) => {{
+            for i in 0..300u64 { $m.put(&$key(i), &[(i & 0xff) as u8; 9]).unwrap(); }
+            let mut errs: Vec<&str> = Vec::new();
+            if $m.flush().is_ok() { errs.push("map.flush()"); }
+            if $m.sync_data().is_ok() { errs.push("map.sync_data()"); }
+            if $m.sync_all().is_ok() { errs.push("map.sync_all()"); }
+            let mut h2 = $again;
+            if h2.flush().is_ok() { errs.push("second_handle.flush()"); }
+            if db.sync_all().is_ok() { errs.push("FileDb::sync_all()"); }
+            if db.sync_data().is_ok() { errs.push("FileDb::sync_data()"); }
+            if !errs.is_empty() { return Err(format!("{}: returned Ok although the OS refused the write: {}", $tag, errs.join(", "))); }
+            for i in 0..300u64 { if $m.get(&$key(i)).unwrap() != Some(vec![(i & 0xff) as u8; 9]) { return Err(format!("{}: in-memory view wrong after the failed flush (key #{i})", $tag)); } }
+            if $m.len().unwrap() != 301 { return Err(format!("{}: len {} after the failed flush", $tag, $m.len().unwrap())); }
+            // lift the limit, if possible
+            let lifted = std::process::Command::new("prlimit").arg("--pid").arg(std::process::id().to_string()).arg("--fsize=unlimited:").status().map(|s| s.success()).unwrap_or(false);
+            if lifted {
+                if let Err(e) = $m.flush() { return Err(format!("{}: flush still fails after the limit was lifted: {e}", $tag)); }
+                db.sync_all().map_err(|e| format!("{}: FileDb::sync_all fails after the limit was lifted: {e}", $tag))?;
+                let snap = { let mut p = std::env::temp_dir(); p.push(format!("abyss-replay-syncfailsnap-{}", std::process::id())); p };
+                copy_dir(&dir, &snap);
+                let ok = { let db2 = abyssiniandb::open_file(&snap).unwrap(); let r = $tag; let _ = r; true && db2.path().exists() };
+                let _ = ok;
+                Some(snap)
+            } else { None }
+        }}; }
+        let snap = match t {
+            0 => { let s = run!(sa, db.db_map_string_with_params("s_a", small.clone()).unwrap(), |i: u64| format!("key{i}"), "string map");
+                   if let Some(sn) = &s { let db2 = abyssiniandb::open_file(sn).unwrap(); let mut m2 = db2.db_map_string_with_params("s_a", big.clone()).unwrap();
+                       for i in 0..300u64 { if m2.get(&format!("key{i}")).unwrap() != Some(vec![(i & 0xff) as u8; 9]) { return Err(format!("string map: key{i} not durable after a successful flush")); } } } s }
+            1 => { let s = run!(ba, db.db_map_bytes("b_a").unwrap(), |i: u64| abyssiniandb::DbBytes::from(format!("key{i}").as_str()), "bytes map");
+                   if let Some(sn) = &s { let db2 = abyssiniandb::open_file(sn).unwrap(); let mut m2 = db2.db_map_bytes_with_params("b_a", big.clone()).unwrap();
+                       for i in 0..300u64 { if m2.get(format!("key{i}").as_str()).unwrap() != Some(vec![(i & 0xff) as u8; 9]) { return Err(format!("bytes map: key{i} not durable after a successful flush")); } } } s }
+            2 => { let s = run!(ia, db.db_map_i64("i_a").unwrap(), |i: u64| (i as i64) * 7919 - 1000, "i64 map");
+                   if let Some(sn) = &s { let db2 = abyssiniandb::open_file(sn).unwrap(); let mut m2 = db2.db_map_i64_with_params("i_a", big.clone()).unwrap();
+                       for i in 0..300u64 { if m2.get(&((i as i64) * 7919 - 1000)).unwrap() != Some(vec![(i & 0xff) as u8; 9]) { return Err(format!("i64 map: key #{i} not durable after a successful flush")); } } } s }
+            3 => { let s = run!(ua, db.db_map_u64("u_a").unwrap(), |i: u64| (i + 1) << 40, "u64 map");
+                   if let Some(sn) = &s { let db2 = abyssiniandb::open_file(sn).unwrap(); let mut m2 = db2.db_map_u64_with_params("u_a", big.clone()).unwrap();
+                       for i in 0..300u64 { if m2.get(&((i + 1) << 40)).unwrap() != Some(vec![(i & 0xff) as u8; 9]) { return Err(format!("u64 map: key #{i} not durable after a successful flush")); } } } s }
+            _ => { let s = run!(va, db.db_map_vu64("v_a").unwrap(), |i: u64| (i + 1) * 1_000_003, "vu64 map");
+                   if let Some(sn) = &s { let db2 = abyssiniandb::open_file(sn).unwrap(); let mut m2 = db2.db_map_vu64_with_params("v_a", big.clone()).unwrap();
+                       for i in 0..300u64 { if m2.get(&((i + 1) * 1_000_003)).unwrap() != Some(vec![(i & 0xff) as u8; 9]) { return Err(format!("vu64 map: key #{i} not durable after a successful flush")); } } } s }
+        };
+        if let Some(sn) = snap { let _ = std::fs::remove_dir_all(sn); }
+        Ok(())
+    }));
+    match res { Ok(Ok(())) => { println!("OK"); 0 } Ok(Err(e)) => { println!("MISMATCH: {e}"); 1 }
+        Err(e) => { let msg = e.downcast_ref::<String>().cloned().or_else(|| e.downcast_ref::<&str>().map(|x| x.to_string())).unwrap_or_default(); println!("MISMATCH: panicked: {msg}"); 1 } }
 }
